@@ -35,36 +35,44 @@ def readWords : Nat → Cursor → Out (List Nat × Cursor)
     let (ws, c) ← readWords n c
     pure (w :: ws, c)
 
+/-- `if (extension_bit() == 1) { stream.read(ext_header_); for (i < extension_length()) … }` -/
+def parseExt (on : Bool) (c : Cursor) : Out (Nat × Nat × List Nat × Cursor) :=
+  if on then do
+    let (prof, c) ← c.readBE 2
+    let (len, c) ← c.readBE 2
+    let (ext, c) ← readWords len c
+    pure (prof, len, ext, c)
+  else pure (0, 0, [], c)
+
+/-- `if (padding_bit() == 1) { … }`: the padding size is the last byte of the data -/
+def parsePadding (on : Bool) (c : Cursor) : Out Nat :=
+  if on then
+    if c.size > 0 then do
+      let c1 ← c.skip (c.size - 1)
+      let (p, _) ← c1.readU8
+      if p == 0 then .throw .malformedPacket else pure p
+    else .throw .malformedPacket
+  else pure 0
+
+/-- the tail of the constructor: `data_ptr = stream.pointer()`, `data_size = stream.size()` -/
+def finish (r : Rtp) (c : Cursor) : Out (Rtp × Inner) :=
+  let dataSize := c.size
+  if r.padding > dataSize then .throw .malformedPacket else
+  if dataSize > r.padding then do
+    -- Internals::pdu_from_flag(PDU::RAW, data_ptr, data_size - padding_size()): `new RawPDU`
+    let pl ← c.peek "RTP::RTP RawPDU" 0 (dataSize - r.padding)
+    pure (r, .raw pl)
+  else pure (r, .none)
+
 /-- `RTP::RTP(const uint8_t* buffer, uint32_t total_sz)` -/
 def parse (b : Bytes) : Out (Rtp × Inner) := do
   let c := Cursor.ofBytes b
   let (h, c) ← c.read 12
   let r0 : Rtp := ⟨h, [], 0, 0, [], 0⟩
   let (csrc, c) ← readWords r0.csrcCount c
-  let (prof, len, ext, c) ←
-    if r0.extensionBit == 1 then do
-      let (prof, c) ← c.readBE 2
-      let (len, c) ← c.readBE 2
-      let (ext, c) ← readWords len c
-      pure (prof, len, ext, c)
-    else pure (0, 0, [], c)
-  -- const uint8_t* data_ptr = stream.pointer(); const size_t data_size = stream.size();
-  let dataSize := c.size
-  let padding ←
-    if r0.paddingBit == 1 then do
-      if dataSize > 0 then
-        let c1 ← c.skip (dataSize - 1)
-        let (p, _) ← c1.readU8
-        if p == 0 then .throw .malformedPacket else pure p
-      else .throw .malformedPacket
-    else pure 0
-  if padding > dataSize then .throw .malformedPacket else
-  let r : Rtp := ⟨h, csrc, prof, len, ext, padding⟩
-  if dataSize > padding then
-    -- Internals::pdu_from_flag(PDU::RAW, data_ptr, data_size - padding_size()): `new RawPDU`
-    let pl ← c.peek "RTP::RTP RawPDU" 0 (dataSize - padding)
-    pure (r, .raw pl)
-  else pure (r, .none)
+  let (prof, len, ext, c) ← parseExt (r0.extensionBit == 1) c
+  let padding ← parsePadding (r0.paddingBit == 1) c
+  finish ⟨h, csrc, prof, len, ext, padding⟩ c
 
 def wordsStr (ws : List Nat) : String := joinComma (ws.map toString)
 
@@ -92,24 +100,33 @@ def writeWords (o : OutCursor) : List Nat → Out OutCursor
     let o ← o.writeBE 4 w
     writeWords o ws
 
+def writeExt (r : Rtp) (o : OutCursor) : Out OutCursor :=
+  if r.extensionBit == 1 then do
+    let o ← o.writeBE 2 r.extProfile
+    let o ← o.writeBE 2 r.extLength
+    writeWords o r.extData
+  else pure o
+
+/-- `if (inner_pdu()) stream.skip(inner_pdu()->size())` -/
+def skipInner (cx : Ctx) (o : OutCursor) : Out OutCursor :=
+  if cx.inners.isEmpty then pure o else o.skip cx.innerSize
+
+def writePadding (cx : Ctx) (r : Rtp) (o : OutCursor) : Out OutCursor :=
+  if r.paddingBit == 1 then
+    if r.padding > 0 then do
+      let o ← skipInner cx o
+      let o ← o.fill (r.padding - 1) 0
+      o.write [UInt8.ofNat r.padding]
+    else .throw .pduNotSerializable
+  else pure o
+
 /-- `RTP::write_serialization` -/
 def write (cx : Ctx) (r : Rtp) (region : Bytes) : Out Bytes := do
   let o ← (OutCursor.ofRegion region).write r.h
   let o ← writeWords o r.csrc
-  let o ←
-    if r.extensionBit == 1 then do
-      let o ← o.writeBE 2 r.extProfile
-      let o ← o.writeBE 2 r.extLength
-      writeWords o r.extData
-    else pure o
-  if r.paddingBit == 1 then
-    if r.padding > 0 then do
-      let o ← if cx.inners.isEmpty then pure o else o.skip cx.innerSize   -- `if (inner_pdu()) stream.skip(inner_pdu()->size())`
-      let o ← o.fill (r.padding - 1) 0
-      let o ← o.write [UInt8.ofNat r.padding]
-      pure o.buffer
-    else .throw .pduNotSerializable
-  else pure o.buffer
+  let o ← writeExt r o
+  let o ← writePadding cx r o
+  pure o.buffer
 
 /-- `std::find` + `erase` -/
 def eraseFirst : List Nat → Nat → List Nat
